@@ -49,6 +49,7 @@ impl<'t> Worker<'t> {
     pub fn tokenize(&mut self) {
         self.top_nodes.clear();
         if self.sent.chars().is_empty() {
+            self.lattice.reset(0);
             return;
         }
         self.tokenizer.build_lattice(&self.sent, &mut self.lattice);
